@@ -78,6 +78,14 @@ Theorem C16_shown_name : forall p shown, curve_name p = Ok shown -> shown <> [] 
 Proof. exact curve_name_of_infer. Qed.
 Print Assumptions C16_shown_name.
 
+(* the executable spec checker (T3, Spec/C16.v: integers compared with the independent constants)
+   accepts every name the model shows: with the correspondence check green, a VIOLATION can only
+   come from the implementation *)
+Theorem C16_spec_checker_agrees : forall p shown, curve_name p = Ok shown -> shown <> [] ->
+  shown_ok shown (p_prime p) (p_a p) (p_b p) (p_base p) (p_order p) = true.
+Proof. exact shown_passes_spec. Qed.
+Print Assumptions C16_spec_checker_agrees.
+
 (* the genuine parameters of each curve are recognised: uncompressed or compressed base point,
    with the standard's seed or without, any cofactor ... *)
 Theorem C16_genuine_accepted : forall nm k compressed with_seed cofactor, nist nm = Some k ->
